@@ -411,6 +411,11 @@ def extract_function(fn):
         body, k = re.subn(r"(?<![\w.>])%s\b" % re.escape(rname), "(*%s)" % rname, body)
         log.append("reference parameter %s -> pointer parameter, uses -> (*%s) x%d" % (rname, rname, k))
 
+    for (pat, rep, cnt) in fn.get("post_rules", []):
+        body, k = re.subn(pat, rep, body)
+        _check_count(fn, pat, k, cnt)
+        log.append("post-rule /%s/ -> '%s' x%d" % (pat, rep, k))
+
     # ghost inserts (specification text, anchored on source text)
     for (pat, text, where, cnt) in fn.get("inserts", []):
         ms = list(re.finditer(pat, body))
